@@ -166,9 +166,9 @@ THOROUGH = [_reg(Getset("T_names3", 3, "names")).name, "prefix", "create_flags"]
 
 # archive level, through the real CLI create path (harness/cli_create.py)
 from harness import cli_create as _cc
-for _n in ['T_create_two_t2_p1', 'create_pan_t1', 'create_pan_t2', 'create_two_t1', 'create_two_t2']:
+for _n in ['T_create_two_t2_p1', 'T_create_two_t3', 'create_pan_t1', 'create_pan_t2', 'create_two_t1', 'create_two_t2']:
     INSTANCES[_n] = _cc.INSTANCES[_n]
-QUICK += ['create_two_t1', 'create_two_t2', 'create_pan_t1']; THOROUGH += ['create_two_t1', 'create_pan_t2', 'T_create_two_t2_p1']
+QUICK += ['create_two_t1', 'create_two_t2', 'create_pan_t1']; THOROUGH += ['create_two_t1', 'create_pan_t2', 'T_create_two_t2_p1', 'T_create_two_t3']
 
 
 def run(ctx):
